@@ -330,18 +330,34 @@ func verifDecBegin(a, t action) {
 		}
 		return
 	}
-	if verifYieldOn && verifPending(t) == 2 {
+	if verifYieldOn && verifProcs > 1 && verifPending(t) == 2 {
 		g, _ := verifGates.LoadOrStore(t, new(int32))
 		c := g.(*int32)
 		if atomic.AddInt32(c, 1) == 1 {
-			deadline := time.Now().Add(300 * time.Microsecond)
-			for atomic.LoadInt32(c) < 2 && time.Now().Before(deadline) {
+			// first at the gate: spin until the other one arrives (bounded)
+			deadline := time.Now().Add(200 * time.Microsecond)
+			for i := 0; atomic.LoadInt32(c) < 2; i++ {
+				if i&255 == 255 {
+					if !time.Now().Before(deadline) {
+						break
+					}
+					runtime.Gosched()
+				}
+			}
+		} else {
+			// second: a small varying delay, so that different alignments of the two decrements are explored
+			for i := atomic.AddUint32(&verifSkew, 7) % 96; i > 0; i-- {
+				atomic.LoadInt32(c)
 			}
 		}
 	}
 }
 
-var verifGates sync.Map
+var (
+	verifGates sync.Map
+	verifSkew  uint32
+	verifProcs = runtime.GOMAXPROCS(0)
+)
 
 func verifDecEnd(a, t action, last bool) {
 	if verifTraceOn {
